@@ -12,7 +12,7 @@
   limit counter of a session = prefixes with ≥ 1 path of that session (its `Source`); the
   "configured maximum" clause is judged per peer address (all sessions' paths).
 -/
-import Rbgp.Rib.Obs
+import Rbgp.Rib.SpecRef
 namespace Rbgp.Rib.SpecC15
 open Rbgp.Rib
 
@@ -42,6 +42,7 @@ structure Live where
   deriving DecidableEq, Repr
 
 structure St where
+  ref : SpecRef.RefSt := {}
   live : List Live := []
   /-- sessions that have ended (peer dropped or re-marked stale): their counter is gone -/
   dead : List (Nat × Fam) := []
@@ -67,10 +68,11 @@ def deactivate (c : Case) (live : List Live) (addr : Nat) (f : Fam) : List Live 
 def deadStep (c : Case) (st : St) : Op → List (Nat × Fam)
   | .drop a f | .restale a f | .restaleLlgr a f =>
       ((st.live.filter fun l => l.fam = f && addrOf c l.src == some a).map fun l => (l.src, l.fam)) ++ st.dead
-  -- a purge that is not handed a counter (what the daemon's `drop_stale_families` / `mark_llgr_stale` /
-  -- `drop_llgr_stale_families` do: no session of the peer is counting then) ends the judgement of the
-  -- peer's counters in the family
-  | .dropStale a f ctr | .dropLlgr a f ctr | .dropNoLlgr a f ctr =>
+  -- `drop_no_llgr` without a counter (the daemon calls it right after `restale_llgr`, when the session is
+  -- gone) removes paths by their community whatever their session: it ends the judgement of the peer's
+  -- counters.  `drop_stale` / `drop_llgr_stale` without a counter only remove paths of sessions marked
+  -- stale, which are no longer judged anyway: the session in progress stays judged.
+  | .dropNoLlgr a f ctr =>
       match ctr.bind (c.srcs[·]?) with
       | some _ => st.dead
       | none =>
@@ -80,7 +82,11 @@ def deadStep (c : Case) (st : St) : Op → List (Nat × Fam)
 def liveStep (c : Case) (st : St) : Op → List Live
   | .insert s f .. => activate c st s f
   | .remove s f .. => activate c st s f
-  | .dropStale a f ctr | .dropLlgr a f ctr | .dropNoLlgr a f ctr =>
+  | .dropStale _ f ctr | .dropLlgr _ f ctr =>
+      match ctr.bind (c.srcs[·]?) with
+      | some s => activate c st s f
+      | none => st.live
+  | .dropNoLlgr a f ctr =>
       match ctr.bind (c.srcs[·]?) with
       | some s => activate c st s f
       | none => deactivate c st.live a f
@@ -140,11 +146,13 @@ def checkStep (c : Case) (st : St) (live : List Live) (op : Op) (s : StepObs) : 
       | none => some "unknown-reference"
       | some _ =>
           let v := ctrOf s l.src l.fam
-          if v ≥ HALF then some s!"limit-counter-underflow class={cls l}"
-          else if (s.fams.any fun fo => fo.fam = l.fam) &&
-              v ≠ countPrefixes (fun e => e.src == l.src) (famDests s.fams l.fam) then
-            some s!"limit-counter-ne-recount class={cls l}"
+          let n := countPrefixes (fun e => e.src == l.src) (famDests s.fams l.fam)
+          if v ≥ HALF then some s!"limit-counter-underflow op={opName op} class={cls l}"
+          else if (s.fams.any fun fo => fo.fam = l.fam) && v ≠ n then
+            some s!"limit-counter-ne-recount dir={if v < n then "below" else "above"} op={opName op} class={cls l}"
           else none) live).orElse fun _ =>
+  -- no limit counter at all has wrapped (sessions that ended included)
+  (if s.ctrs.any (fun x => x.2.2 ≥ HALF) then some s!"limit-counter-underflow op={opName op} class=ended-session" else none).orElse fun _ =>
   -- the limit is enforced or signalled
   (match op with
    | .insert src fam net _ _ _ _ _ =>
@@ -165,14 +173,18 @@ def checkSteps (c : Case) : Nat → St → List Op → List StepObs → Verdict
   | _, _, [], _ :: _ => .ok
   | i, st, op :: ops, s :: ss =>
       let live := liveStep c st op
-      match checkStep c st live op s with
+      let ref := SpecRef.refStep c st.ref op s.res
+      match (SpecRef.check c ref s).orElse fun _ => checkStep c st live op s with
       | some cl => .fail i cl
-      | none => checkSteps c (i + 1) { live := live, dead := deadStep c st op, prev := s.fams } ops ss
+      | none => checkSteps c (i + 1) { ref := ref, live := live, dead := deadStep c st op, prev := s.fams } ops ss
 
 /-- The C15 reference checker.  A panic is an arithmetic overflow check firing (debug profile). -/
 def check (c : Case) (o : Obs) : Verdict :=
   match checkSteps c 0 {} c.ops o.steps with
   | .fail i cl => .fail i cl
-  | .ok => if o.panicked then .fail o.steps.length "panic" else .ok
+  | .ok =>
+      if o.panicked then .fail o.steps.length "panic"
+      else if o.steps.length ≠ c.ops.length then .fail o.steps.length "observation-misses-steps"
+      else .ok
 
 end Rbgp.Rib.SpecC15
